@@ -450,6 +450,37 @@ func c14R4(p *Prog, r *Report) {
 					okSend = true
 				}
 			}
+			// one message per record: the send sits in the loop over the records, runs on every
+			// iteration, and its variadic argument is a one-element list holding the converter's
+			// result for that record (several results in one call become ONE multi-part message)
+			var conv *ssa.Call
+			Instrs(a, func(x ssa.Instruction) {
+				if call, ok := x.(*ssa.Call); ok && call.Call.StaticCallee() == nil && !call.Call.IsInvoke() {
+					if _, isB := call.Call.Value.(*ssa.Builtin); !isB {
+						conv = call
+					}
+				}
+			})
+			perRecord := false
+			if conv != nil {
+				for _, l := range RangeLoops(a) {
+					if l.Contains(in.Block()) && l.Contains(conv.Block()) && l.EveryIteration(in.Block()) {
+						perRecord = true
+					}
+				}
+			}
+			oneList := false
+			if len(cc.Args) > 0 {
+				if sl, ok := cc.Args[len(cc.Args)-1].(*ssa.Slice); ok {
+					if al, ok := sl.X.(*ssa.Alloc); ok {
+						if arr, ok := derefType(al.Type()).Underlying().(*types.Array); ok && arr.Len() == 1 {
+							oneList = true
+						}
+					}
+				}
+			}
+			r.Check(perRecord && oneList, "C14.R4", "one socket message per record", p.InstrPos(in), "the send runs once per record of the batch with that record's two frames",
+				"the send is not made once per record with exactly that record's frames (batched outside the per-record loop, or several part lists in one call): the records of a batch arrive as one multi-part message, so only the first carries its channel prefix at the front and subscribers cannot tell the records apart")
 		})
 	}
 	r.Check(okSend, "C14.R4", "the publishing goroutine sends the converter's result", p.Pos(ss.Pos()), "SendMessage(converter(record))", "what is sent on the socket is not (only) the converter's result")
